@@ -151,7 +151,7 @@ func runC03(r *kit.Run) {
 	// the classification table is enumerated completely in both tiers;
 	// positions / workers / collectors / speeds are drawn per cell, and
 	// the thorough tier repeats every cell many times with other draws
-	reps := int64(r.Scale(1, 120))
+	reps := int64(r.Scale(1, 360))
 	if r.Build != "plain" {
 		reps = 2
 	}
